@@ -448,6 +448,26 @@ def proof_phase_extra(ctx, module):
 
 # --------------------------------------------------------------------------- builds
 
+def replay_program(obj):
+    """replay of a violation found by a self-checking program (checks/*_glue.py, C11_conv.py): rebuild the recorded source
+    against the current /repo with the recorded flags and run it. True when the replay object was of that kind."""
+    rep = obj.get('replay') if isinstance(obj.get('replay'), dict) else obj
+    src = rep.get('source')
+    if not src or 'flags' not in rep:
+        return False
+    if not os.path.exists(src):
+        print('the recorded program %s is no longer in the cache; rerun the check to regenerate it' % src); return True
+    binp = os.path.join(cache_dir('replay-prog'), 'prog')
+    rc, out = run(['g++', '-std=c++17', '-g', '-fsanitize=address,undefined', '-fno-sanitize-recover=all', '-pthread', '-I', os.path.join(REPO, 'include')]
+                  + list(rep['flags']) + ['-o', binp, src], timeout=900)
+    if rc != 0:
+        print('the program does not compile against %s:\n%s' % (REPO, out[-1500:])); return True
+    p = subprocess.run([binp], capture_output=True, text=True, timeout=300, env=dict(os.environ, ASAN_OPTIONS='detect_leaks=0'))
+    print('--- program %s (flags %s), exit %d' % (src, ' '.join(rep['flags']), p.returncode))
+    print(p.stdout[-4000:]); print(p.stderr[-2000:])
+    return True
+
+
 def cache_dir(key):
     d = os.path.join(BUILD, 'cache', key)
     os.makedirs(d, exist_ok=True)
